@@ -43,8 +43,8 @@ ASSUMPTIONS = [
     "Vector has no print_ method; its entry points are str, repr, to_string",
 ]
 BOUND = {
-    "quick": "vectors: all sequences of length 0..3 over the 'quick' rendering alphabet (<= 12 values incl. an astral character, a zero-width joiner and a right-to-left letter) of 14 dtypes; frames: all single-column frames of 0..2 rows over the same alphabets plus fixed 3-row columns, all ordered pairs of 11 column names, all ordered pairs of a 10-column menu at 0 and 3 rows, all triples of a 5-column menu at 3 rows; GeoJSON: 0..2 features x {null, Point, Polygon} x 3 property sets x {constructor, read from file}; ListOfDicts: all lists of 0..3 items over 8 items; configurations: full product (max_rows {None,1,2} x max_width {None,1,10,40} x truncate_width {None,1,2,5} | max_elements {None,0,1} | max_items {None,0,1}) x precision {0,2,6} x separator {'', ','} x PRINT_MAX_* {default, 2} x terminal {20, 80} x entry points, plus separator {apostrophe, space, no-break space} x terminal x entry points at precision 2",
-    "thorough": "vectors: all sequences of length 0..3 over the 'thorough' alphabets (<= 17 values); frames: all single-column frames of 0..2 rows over the thorough alphabets and of 3 rows over their first 10 values, all ordered pairs of 15 column names, all ordered pairs of the 10-column menu at 0..3 rows and all triples at 0 and 3 rows; GeoJSON: 0..3 features; ListOfDicts: all lists of 0..3 items over 11 items; the same full configuration product",
+    "quick": "vectors: all sequences of length 0..3 over the 'quick' rendering alphabet (<= 13 values incl. an astral character, a zero-width joiner and a right-to-left letter) of 14 dtypes; frames: all single-column frames of 0..2 rows over the same alphabets plus fixed 3-row columns, all ordered pairs of 11 column names, all ordered pairs of a 10-column menu at 0 and 3 rows, all triples of a 5-column menu at 3 rows; GeoJSON: 0..2 features x {null, Point, Polygon} x 3 property sets x {constructor, read from file}; ListOfDicts: all lists of 0..3 items over 8 items; configurations: full product (max_rows {None,1,2} x max_width {None,1,10,40} x truncate_width {None,1,2,5} | max_elements {None,0,1} | max_items {None,0,1}) x precision {0,2,6} x separator {'', ','} x PRINT_MAX_* {default, 2} x terminal {20, 80} x entry points, plus separator {apostrophe, space, no-break space} x terminal x entry points at precision 2",
+    "thorough": "vectors: all sequences of length 0..3 over the 'thorough' alphabets (<= 18 values); frames: all single-column frames of 0..2 rows over the thorough alphabets and of 3 rows over their first 10 values, all ordered pairs of 15 column names, all ordered pairs of the 10-column menu at 0..3 rows and all triples at 0 and 3 rows; GeoJSON: 0..3 features; ListOfDicts: all lists of 0..3 items over 11 items; the same full configuration product",
 }
 TIME_CAP = {"quick": 600, "thorough": 3000}
 EXPLANATION = ("states = distinct object descriptions plus distinct rendered texts (addresses masked); transitions = rendering calls, "
@@ -68,9 +68,9 @@ ALPHA = {
            "thorough": [0, -1, 1234567, 2**53 + 1, -2**63, 1000]},
     "u1": {"quick": [0, 200], "thorough": [0, 200]},
     "b1": {"quick": [False, True], "thorough": [False, True]},
-    "str": {"quick": [None, "a", "日本", E_ACUTE, "l1\nl2", LONG, 'q"r', "l1\n", "l1\r\nl2", "l1\u2028l2", "a\U0001F600b", "x\u200dy\u05d0"],
+    "str": {"quick": [None, "a", "日本", E_ACUTE, "l1\nl2", LONG, 'q"r', "l1\n", "l1\r\nl2", "l1\u2028l2", "a\U0001F600b", "x\u200dy\u05d0", "\U0001F468\u200d\U0001F469\u200d\U0001F467"],
             "thorough": [None, "a", "日本", E_ACUTE, "l1\nl2", LONG, "l1\n", WIDE_LONG, "\nl2", "l1\r\nl2", 'q"r', " ", "l1\u2028l2", "l1\x0bl2", "l1\rl2",
-                         "a\U0001F600b", "x\u200dy\u05d0"]},
+                         "a\U0001F600b", "x\u200dy\u05d0", "\U0001F468\u200d\U0001F469\u200d\U0001F467"]},
     "U": {"quick": [None, "a", "日本", "l1\nl2"], "thorough": [None, "a", "日本", "l1\nl2", LONG]},
     "D": {"quick": [None, "1970-01-01", "9999-12-31", "0001-01-01"],
           "thorough": [None, "1970-01-01", "9999-12-31", "0001-01-01", "2020-02-29"]},
